@@ -18,7 +18,7 @@ def _th(*audits: str) -> list[str]:
 
 # properties whose machinery is finished and reviewed (everything else is listed under not_applicable
 # in MANIFEST.json with the reason "in progress")
-READY = {"C01", "C06", "C07", "C10", "C17", "C18", "C19", "C20"}
+READY = {"C01", "C06", "C07", "C08", "C09", "C10", "C17", "C18", "C19", "C20"}
 
 
 def _reg(pid, modules, audits, families, note, partial="", assumptions=None, pre_build=None):
@@ -59,7 +59,8 @@ _LOOP_PARTIAL = {
 }
 for pid, (mods, audits) in _LOOP.items():
     if _have(*audits):
-        _reg(pid, mods, audits, ["loop"], LOOP_NOTE, partial=_LOOP_PARTIAL.get(pid, ""))
+        fams = ["loop", "interleave"] if pid in ("C08", "C09") else ["loop"]
+        _reg(pid, mods, audits, fams, LOOP_NOTE, partial=_LOOP_PARTIAL.get(pid, ""))
 
 # ---------------------------------------------------------------- components
 if _have("Redress/Audit/C06.lean"):
